@@ -222,7 +222,7 @@ func (c *CEnv) ident(name string) cv {
 	if name == "none" {
 		return cv{V: T{S: "none", So: "OptS"}}
 	}
-	if v, ok := c.names[name]; ok {
+	if v, ok := c.names[name]; ok && v.V != nil {
 		// pointer parameters: dereference lazily in sel; heap state depends on old/current
 		return v
 	}
@@ -981,6 +981,18 @@ func (c *CEnv) callFn(e *Expr) cv {
 		}
 		v := c.eval(e.Args[1])
 		return cv{V: app("OptS", "some", c.x.encodeValue(c.curState(), fam, v))}
+	case "marshal":
+		// marshal(TypeName, value): the protobuf encoding of a message value (mar_T, injective by the round-trip axiom)
+		t := c.x.e.msgTypeByName(e.Args[0].Val)
+		mar, _ := c.x.e.marshalFn(t)
+		v := c.eval(e.Args[1])
+		var term T
+		if tv, ok := v.V.(T); ok {
+			term = tv
+		} else {
+			term = c.x.e.reify(c.curState(), v.V, t)
+		}
+		return cv{V: app(SString, mar, term)}
 	case "substr":
 		return cv{V: app(SString, "str.substr", c.term(e.Args[0]), c.term(e.Args[1]), c.term(e.Args[2]))}
 	case "prefixof":
